@@ -92,6 +92,22 @@ def _unstable(rename):
     return [v for v in (rename or {}).values() if not G.nfkc_stable(v)]
 
 
+def _rec_target_reassigned(prog):
+    """A recursive loop whose body reassigns the name handed to loop(...): termination is not guaranteed."""
+
+    def assigns(body, name):
+        for s in body:
+            k = s[0]
+            if (k == "set" and name in s[1]) or (k == "setblock" and s[1] == name) or (k == "with" and name in [n for n, _ in s[1]]):
+                return True
+            for kind, b in G.sub_bodies(s):
+                if kind in ("if", "with", "filter", "setblock", "autoescape") and assigns(b, name):
+                    return True
+        return False
+
+    return any(s[0] == "for" and s[6] and assigns(s[3], s[1][0]) for s in G.walk(prog))
+
+
 def _check(case, allow_known=False):
     st = _setup()
     prog, datas, rename = case["prog"], case["data"], case.get("rename") or None
@@ -105,6 +121,16 @@ def _check(case, allow_known=False):
     exp = [I.interpret_ex(prog, d, guard=not allow_known) for d in datas]
     if any(r.kind == "declined" and r.value != "Ambiguous" for r in exp):
         raise core.Discard()  # budget / unsupported: nothing is run
+    for r, d in zip(exp, datas):
+        # resource probe for data the guard declined: the same run without the guard must stay inside the budget
+        if r.kind == "declined" and not allow_known:
+            probe = I.interpret_ex(prog, d, guard=False)
+            if probe.kind == "declined" and probe.value != "Ambiguous":
+                raise core.Discard()
+    if any(r.kind == "declined" for r in exp) and _rec_target_reassigned(prog):
+        # the reference stopped at the ambiguity guard before it could bound the recursion of loop(x) with a
+        # reassigned x; such programs are not generated, and a hand-written one is not rendered
+        raise core.Discard()
     labels = set()
     for r in exp:
         labels.update(r.labels)
